@@ -452,6 +452,8 @@ def run_connection(scn, sched, epr, carry, idx):
                 r[i] = pr[i] if pr[i] is not None else ('ok', None)
         out['asm_connect_events'] = (mc.connected, ms.connected)
     out['hs'] = (classify(r[0]), classify(r[1]))
+    if api == 'asm' and out['hs'] == (('ok',), ('ok',)) and out['asm_connect_events'] != (1, 1):
+        out['hs'] = (('AsmConnectEvents', out['asm_connect_events'][0]), ('AsmConnectEvents', out['asm_connect_events'][1]))
     out['params'] = (_params(client), _params(server))
     out['secret'] = (_secret(client), _secret(server))
     ok = out['hs'] == (('ok',), ('ok',))
@@ -657,8 +659,8 @@ class ChunkSock(object):
 
 def run_connection_blocking(scn, sched, epr, carry, idx):
     a, b = socket.socketpair()
-    a.settimeout(30)
-    b.settimeout(30)
+    a.settimeout(300)
+    b.settimeout(300)
     csock, ssock = ChunkSock(a, sched, 'c%d' % idx), ChunkSock(b, sched, 's%d' % idx)
     client, server = TLSConnection(csock), TLSConnection(ssock)
     tc, ts = 'client%d' % idx, 'server%d' % idx
@@ -739,8 +741,8 @@ def run_connection_blocking(scn, sched, epr, carry, idx):
     t2 = threading.Thread(target=body, args=('s', server, ts, lambda: server.handshakeServer(**skw)))
     t1.start()
     t2.start()
-    t1.join(90)
-    t2.join(90)
+    t1.join(900)
+    t2.join(900)
     out = {}
     hung = t1.is_alive() or t2.is_alive()
     out['hs'] = (classify(res['c'].get('hs', ('exc', Deadlock('thread hung')))),
@@ -789,9 +791,22 @@ COMPARE_ALWAYS = ('hs', 'params', 'xfers', 'close', 'closed_flags')
 COMPARE_IF_DETERMINISTIC = ('secret', 'wire', 'wire_len')
 
 
+def _peer_view(hs):
+    """On real sockets (blocking API in threads) what the *other* end observes after one end
+    failed and closed is a TCP race (alert read, EPIPE, ECONNRESET or EOF): not tlslite's doing."""
+    def f(c):
+        if c[0] in ('RemoteAlert', 'AbruptClose') or (c[0] == 'SockError' and c[1] in (errno.EPIPE, errno.ECONNRESET)):
+            return ('PeerFailed',)
+        return c
+    return tuple(f(c) for c in hs)
+
+
 def diff_outcomes(base, other, deterministic, reframed=False, api='gen'):
     """List of (field, connection index, base value, other value) that differ."""
     d = []
+    if api == 'blocking':
+        base = [dict(b, hs=_peer_view(b['hs'])) if b['hs'] != (('ok',), ('ok',)) else b for b in base]
+        other = [dict(o, hs=_peer_view(o['hs'])) if o['hs'] != (('ok',), ('ok',)) else o for o in other]
     for i, (b, o) in enumerate(zip(base, other)):
         keys = list(COMPARE_ALWAYS)
         if deterministic:
